@@ -41,6 +41,7 @@ type c27World struct {
 	sessions   int
 	cuSpec     uint64
 	objID      map[*SingleProviderSession]int
+	expected   map[c27Key]uint64 // ledger: CU sum each session must hold between relays
 }
 
 func (w *c27World) relay(taskName string, n int) {
@@ -75,6 +76,16 @@ func (w *c27World) relay(taskName string, n int) {
 			r.Op("relay", "rejected_get")
 			r.Logf("%s relay c=%s e=%d s=%d n=%d: get rejected (%s)", taskName, consumer, epoch, sid, relayNum, errShort(err))
 			continue
+		}
+		// the session is ours now (locked): its CU sum must be what the completed and rolled-back
+		// relays of this session id left behind
+		cuBefore := atomic.LoadUint64(&sess.CuSum)
+		if exp, seen := w.expected[key]; seen {
+			r.OracleEvals++
+			if cuBefore != exp {
+				r.SetViolation("session-cu-sum-wrong", "at-acquire", fmt.Sprintf("session (epoch %d, project %s, id %d) has CuSum=%d when acquired, but its accepted relays minus full roll-backs of failed ones give %d", epoch, project, sid, cuBefore, exp))
+				return
+			}
 		}
 		// consumer-signed cumulative CU for this relay
 		cu := w.cuSpec
@@ -129,17 +140,28 @@ func (w *c27World) relay(taskName string, n int) {
 			time.Sleep(time.Duration(1+r.Draw("ops", 40)) * time.Millisecond)
 			simrt.Resume("harness:relay-sleep")
 		}
+		afterAccept := atomic.LoadUint64(&sess.CuSum)
+		cuToAdd := afterAccept - cuBefore // what this relay charged
 		outcome := r.Draw("fault", 6)
 		switch {
 		case outcome == 1:
 			// reward server holds a higher proof for this session: sync CU, then the relay fails
 			newCU := atomic.LoadUint64(&sess.CuSum) + uint64(1+r.Draw("fault", 50))
 			errU := w.psm.UpdateSessionCU(consumer, epoch, sid, newCU)
+			if errU == nil {
+				afterAccept = newCU
+			}
 			r.Fault("stored_proof_higher")
 			r.Logf("%s   UpdateSessionCU s=%d -> %d: %s", taskName, sid, newCU, errShort(errU))
 			fallthrough
 		case outcome == 2:
 			w.inProgress[key]--
+			// a relay that fails while its epoch is still valid is rolled back in full
+			if w.psm.IsValidEpoch(epoch) {
+				w.expected[key] = afterAccept - cuToAdd
+			} else {
+				delete(w.expected, key) // the epoch's sessions are being dropped
+			}
 			errF := w.psm.OnSessionFailure(sess, relayNum)
 			r.Fault("relay_failed_after_accept")
 			r.Op("relay", "failed")
@@ -149,6 +171,7 @@ func (w *c27World) relay(taskName string, n int) {
 			if relayNum > w.lastDone[key] {
 				w.lastDone[key] = relayNum
 			}
+			w.expected[key] = afterAccept
 			errD := w.psm.OnSessionDone(sess, relayNum)
 			r.Op("relay", "ok")
 			r.Logf("%s   done s=%d n=%d: %s", taskName, sid, relayNum, errShort(errD))
@@ -216,6 +239,13 @@ func (w *c27World) checkAccounting() {
 			sort.Slice(ids, func(i, j int) bool { return ids[i] < ids[j] })
 			for _, id := range ids {
 				sum += pswc.Sessions[id].CuSum
+				if exp, ok := w.expected[c27Key{e, p, id}]; ok {
+					r.OracleEvals++
+					if pswc.Sessions[id].CuSum != exp {
+						r.SetViolation("session-cu-sum-wrong", "quiescent", fmt.Sprintf("session (epoch %d, project %s, id %d) ends with CuSum=%d, but its accepted relays minus full roll-backs of failed ones give %d", e, p, id, pswc.Sessions[id].CuSum, exp))
+						return
+					}
+				}
 			}
 			used := pswc.epochData.UsedComputeUnits
 			r.OracleEvals++
@@ -230,7 +260,7 @@ func (w *c27World) checkAccounting() {
 
 func runC27(r *simrt.Run) {
 	inBubble(r, func(s *simrt.Sched) {
-		w := &c27World{r: r, inProgress: map[c27Key]int{}, lastDone: map[c27Key]uint64{}, virtEpoch: map[uint64]uint64{}, projectOf: map[string]string{}, objID: map[*SingleProviderSession]int{}}
+		w := &c27World{r: r, inProgress: map[c27Key]int{}, lastDone: map[c27Key]uint64{}, virtEpoch: map[uint64]uint64{}, projectOf: map[string]string{}, objID: map[*SingleProviderSession]int{}, expected: map[c27Key]uint64{}}
 		w.epochSize = 10
 		w.curEpoch = 100
 		w.maxCU = uint64(20 * (1 + r.Draw("cfg", 30)))
